@@ -21,7 +21,7 @@ RULE = ("family seq: ALL sequences over {initialize, start, step, stop, run_up_t
         "sequences of length 5-9 on float/int/Duration programs; family gate: after every prefix of length <= 1 (quick) / 2 "
         "(thorough) that leaves the simulator startable, the run thread is parked in a handler and each of the 8 commands is "
         "issued against it; family inside: each command from a handler and from listeners of each notification type; family "
-        "overlap: fixed list of forced overlaps; family storm: random command storms with delay injection; non-trivial = "
+        "overlap: fixed list of forced overlaps; (family seq also records the run state the caller sees the moment an accepted start returns); family storm: random command storms with delay injection; non-trivial = "
         "the case reached >= 3 distinct abstract states or overlapped a command with a run-thread transition; distinct = "
         "canonical case hash")
 ASSUMPTIONS = ["end_replication has no docstring: where it cannot take effect (not initialised, already ended) only a refusal that changes nothing satisfies 'takes effect or is refused'",
@@ -194,6 +194,12 @@ def _run_seq(case, ctx):
                 out = h.cmd(c, mid)
             else:
                 out = h.cmd(c)
+            if out == "ok" and c in ("start", "run_up_to", "run_up_to_including") and exp["outcome"] == "ok":
+                # an accepted start returns once the run thread has taken over: STARTING is a state inside the call
+                ctx.count("accepted_starts_observed_at_return")
+                if h.state_at_return == "STARTING" and h.cmd_seconds < 0.5:       # (the library's own 1 s wait timing out on a loaded machine is not judged)
+                    ctx.viol(f"start-returned-while-still-STARTING:{c}@{bstate}", {**w, "before": before})
+                    return
             if not h.wait_quiescent(20):
                 ctx.viol("hang:no-quiescence-after-command", {**w, "snapshot": h.snapshot()})
                 return
